@@ -288,7 +288,7 @@ func diff(o *obiseq.BioSequence, s *shadow, withFeat bool) []string {
 	var got map[string]int
 	gotOK := true
 	if v, ok := ann[pmKey]; ok {
-		if m, isMap := v.(map[string]int); isMap {
+		if m, isMap := asIntMap(v); isMap {
 			got, gotOK = ref.CanonMismatches(m)
 		} else {
 			gotOK = false
@@ -358,7 +358,18 @@ func build(id string, s *shadow, definition string) *obiseq.BioSequence {
 		o.SetAttribute(k, deepCopy(s.ann[k]))
 	}
 	if s.pm != nil && len(s.pm) > 0 {
-		o.SetAttribute(pmKey, ref.MismatchMap(s.pm))
+		m := ref.MismatchMap(s.pm)
+		if (len(s.nuc)+len(s.pm))%3 == 1 {
+			// the form the annotation has when the record was read from a file (decoded JSON):
+			// map[string]interface{} holding float64 values
+			dm := map[string]interface{}{}
+			for k, v := range m {
+				dm[k] = float64(v)
+			}
+			o.SetAttribute(pmKey, dm)
+		} else {
+			o.SetAttribute(pmKey, m)
+		}
 	}
 	return o
 }
@@ -421,4 +432,27 @@ func lenClass(n int) string {
 		return fmt.Sprintf("<=1024/%d", n%2)
 	}
 	return fmt.Sprintf(">1024/%d", n%2)
+}
+
+// asIntMap reads a position map in either of its two forms: map[string]int (set by the library) or
+// the decoded-JSON form map[string]interface{} with numeric values.
+func asIntMap(v any) (map[string]int, bool) {
+	switch m := v.(type) {
+	case map[string]int:
+		return m, true
+	case map[string]interface{}:
+		out := map[string]int{}
+		for k, x := range m {
+			switch n := x.(type) {
+			case float64:
+				out[k] = int(n)
+			case int:
+				out[k] = n
+			default:
+				return nil, false
+			}
+		}
+		return out, true
+	}
+	return nil, false
 }
